@@ -31,7 +31,7 @@ ASSUMPTIONS = ["SQL validity: exposed relation names of one FROM scope are pairw
                "sqlfluff yields the same tree shape for every identifier body over the alphabet (validated per replayed witness)"]
 
 LOCAL = ("a", "d", "c")
-BUDGET = {"quick": 5, "thorough": 7}   # free names per harness instance (local names first, then a seeded share of the rest)
+BUDGET = {"quick": 5, "thorough": 6}   # free names per harness instance (local names first, then a seeded share of the rest)
 
 
 class RenameOb(StmtOb):
